@@ -36,8 +36,9 @@ Theorem C04_history_partial :
 Proof. exact IndexProofs.C04_history_partial. Qed.
 
 (* Element::set_item_name: needs C05's invariant as well (the members of the referrer lists must be reference
-   elements: their first content item is overwritten).  OpSetItemName is still in Pending04/Pending05 because the
-   preservation of Inv05 by the referrer-list merge is not proved yet. *)
+   elements: their first content item is overwritten); it is therefore in Pending04 for C04_inv_partial (no Inv05
+   hypothesis there) but covered by the combined theorems C45_inv_partial / C05_history_partial /
+   C04_reachable_partial (Properties/C05.v, Pending45). *)
 Theorem C04_set_item_name :
   forall (T : tables) (check_fn : N -> list N -> res bool) (LATEST : N),
   TablesOK T check_fn ->
